@@ -59,4 +59,38 @@ mod verif_native_multiformat {
         }
         println!("VERIF-JOB C27.roundtrip CASES {cases}");
     }
+
+    // native job C27.varint_all (thorough tier): the round-trip law assumed by unit multiformat (axiom_varint_round_trip), on the real
+    // unsigned_varint, for EVERY u32 tag (complete in n) and three tails (bounded in `rest`): decode::u32(encode::u32(n) ++ rest) = (n, rest)
+    #[test]
+    fn varint_round_trip_every_u32() {
+        let threads = 16u64;
+        let handles: Vec<_> = (0..threads).map(|t| std::thread::spawn(move || {
+            let lo = (1u64 << 32) * t / threads;
+            let hi = (1u64 << 32) * (t + 1) / threads;
+            let mut buf = unsigned_varint::encode::u32_buffer();
+            let mut cases = 0u64;
+            for n in lo..hi {
+                let n = n as u32;
+                let enc = unsigned_varint::encode::u32(n, &mut buf);
+                let len = enc.len();
+                let mut bytes = [0u8; 8];
+                bytes[..len].copy_from_slice(enc);
+                for rest in [&[][..], &[0x80u8, 0x01][..], &[0xffu8][..]] {
+                    bytes[len..len + rest.len()].copy_from_slice(rest);
+                    match unsigned_varint::decode::u32(&bytes[..len + rest.len()]) {
+                        Ok((m, r)) if m == n && r == rest => {}
+                        other => {
+                            println!("VERIF-JOB C27.varint_all FAIL n={n} rest={rest:02x?}: decode(encode(n) ++ rest) = {:?}", other.map_err(|e| e.to_string()));
+                            panic!("varint round trip");
+                        }
+                    }
+                    cases += 1;
+                }
+            }
+            cases
+        })).collect();
+        let cases: u64 = handles.into_iter().map(|h| h.join().expect("worker")).sum();
+        println!("VERIF-JOB C27.varint_all CASES {cases}");
+    }
 }
